@@ -63,6 +63,7 @@ fn main() {
         "obj" => obj::run(&mut rng, &mut out, n),
         "c01" => protocol::run_c01(&mut rng, &mut out, n),
         "c22p" => protocol::run_large_assertions(&mut rng, &mut out, n),
+        "c02c" => protocol::run_coefficients(&mut rng, &mut out, n),
         "c02" => protocol::run_c02(&mut rng, &mut out, n),
         "c03" => tamper::run_c03(&mut rng, &mut out, n),
         "c03t" => tamper::run_c03t(&mut rng, &mut out, n),
